@@ -643,6 +643,7 @@ pub fn t_scoped_try_lock<C: Kind<L>, L: Uni<N>, const N: usize>(c: &C, lend: boo
 	let body = |d: L::DataMut<'_>| {
 		calls.set(calls.get() + 1);
 		assert!(all_mine_x(&st), "C02_closure_runs_only_while_every_leaf_is_held");
+		assert!(key_flag(), "C06_no_key_obtainable_inside_scoped_call");
 		assert!(L::data_vals(&d) == vals, "C02_closure_argument_routes_to_declared_member");
 		17u8
 	};
@@ -751,6 +752,7 @@ pub fn t_scoped_read<C: KindS<L>, L: UniS<N>, const N: usize>(c: &C, lend: bool)
 		calls.set(calls.get() + 1);
 		assert!(all_mine_s(&st, &L::is_mutex()), "C02_closure_runs_only_while_every_leaf_is_held");
 		assert!(no_other_excl(&st), "C02_shared_section_never_overlaps_an_exclusive_one");
+		assert!(key_flag(), "C06_no_key_obtainable_inside_scoped_call");
 		assert!(L::dataref_vals(&d) == vals, "C02_closure_argument_routes_to_declared_member");
 		17u8
 	};
@@ -782,6 +784,7 @@ pub fn t_scoped_try_read<C: KindS<L>, L: UniS<N>, const N: usize>(c: &C, lend: b
 	let body = |d: L::DataRef<'_>| {
 		calls.set(calls.get() + 1);
 		assert!(all_mine_s(&st, &L::is_mutex()), "C02_closure_runs_only_while_every_leaf_is_held");
+		assert!(key_flag(), "C06_no_key_obtainable_inside_scoped_call");
 		assert!(L::dataref_vals(&d) == vals, "C02_closure_argument_routes_to_declared_member");
 		17u8
 	};
